@@ -1,6 +1,6 @@
 /-
 Model of carquet's writer pipeline: src/writer/page_writer.c, column_writer.c,
-row_group_writer.c, file_writer.c (as of the fixes F2/F3/F17/F60/F64).
+row_group_writer.c, file_writer.c (as of the fixes F2/F3/F17/F60/F64/F23).
 
 The byte-level components the pipeline calls (PLAIN, RLE levels, compression, CRC, Thrift
 headers and footer, statistics order) are taken as a parameter record `Deps`, instantiated in
@@ -85,13 +85,13 @@ structure ChunkMeta where
   codec : Nat
   numValues : Nat
   totalCompressed : Nat       -- bytes of the chunk in the file, page headers included
-  totalUncompressed : Nat     -- Σ uncompressed page bodies (headers not included: F23)
+  totalUncompressed : Nat     -- Σ (page header + uncompressed page body), as parquet.thrift defines it (after fix F23)
   path : String
   deriving DecidableEq, Repr
 
 structure RgMeta where
   numRows : Nat
-  totalByteSize : Nat
+  totalByteSize : Nat         -- Σ total_uncompressed_size of the chunks (after fix F23; was the compressed chunk sizes)
   fileOffset : Nat
   totalCompressed : Nat
   ordinal : Nat
@@ -225,27 +225,37 @@ def pageStatsOf (p : Page) : Option PageStats :=
 def PageRec.bytes (D : Deps) (r : PageRec) : Bytes :=
   D.pageHeader r.body.length r.comp.length (D.crc32 r.comp) r.rows r.stats ++ r.comp
 
-/-- `carquet_page_writer_finalize`: header ++ compressed body, and the uncompressed size -/
-def finalizePage (D : Deps) (codec : Nat) (c : Col) (p : Page) : Option (Bytes × Nat) :=
+/-- ghost: the header in front of the stored body of a finished page -/
+def PageRec.header (D : Deps) (r : PageRec) : Bytes :=
+  D.pageHeader r.body.length r.comp.length (D.crc32 r.comp) r.rows r.stats
+
+/-- ghost: what parquet.thrift calls the uncompressed size of a page — header + uncompressed body -/
+def PageRec.usize (D : Deps) (r : PageRec) : Nat := (r.header D).length + r.body.length
+
+/-- `carquet_page_writer_finalize`: header ++ compressed body (`page_data`, `page_size`), the
+uncompressed size and the compressed size of the body -/
+def finalizePage (D : Deps) (codec : Nat) (c : Col) (p : Page) : Option (Bytes × Nat × Nat) :=
   match D.compress codec (pageBody D c p) with
   | none => none
   | some comp =>
     some (D.pageHeader (pageBody D c p).length comp.length (D.crc32 comp) p.numValues (pageStatsOf p) ++ comp,
-          (pageBody D c p).length)
+          (pageBody D c p).length, comp.length)
 
 /-- ghost: the record of the page `finalizePage` emits -/
 def pageRecOf (D : Deps) (codec : Nat) (c : Col) (p : Page) : PageRec :=
   { rows := p.numValues, body := pageBody D c p,
     comp := (D.compress codec (pageBody D c p)).getD [], stats := pageStatsOf p, src := p }
 
-/-- `flush_current_page` -/
+/-- `flush_current_page` (after fix F23): `total_uncompressed_size += (page_size - compressed_size) +
+uncompressed_size`, i.e. the page header is counted as well -/
 def flushPage (D : Deps) (codec : Nat) (c : Col) (cw : ColW) : Option ColW :=
   if cw.page.numValues = 0 then some cw
   else match finalizePage D codec c cw.page with
     | none => none
-    | some (bytes, unc) =>
+    | some (bytes, unc, comp) =>
       some { cw with page := {}, buffer := cw.buffer ++ bytes,
-                     totalUncompressed := cw.totalUncompressed + unc, numPages := cw.numPages + 1,
+                     totalUncompressed := cw.totalUncompressed + ((bytes.length - comp) + unc),
+                     numPages := cw.numPages + 1,
                      pages := cw.pages ++ [pageRecOf D codec c cw.page] }
 
 /-- `carquet_column_writer_write_batch` -/
@@ -292,6 +302,10 @@ def finalizeColsPages (D : Deps) (w : W) : List Col → List ColW → List (List
     | some cw' => cw'.pages :: finalizeColsPages D w cs cws
   | _, _ => []
 
+/-- what `carquet_row_group_writer_finalize` leaves in `total_byte_size` (after fix F23): the field is
+reset at the start of every finalisation and each column adds its `total_uncompressed_size` -/
+def chunksUncompressed (ms : List ChunkMeta) : Nat := (ms.map (·.totalUncompressed)).sum
+
 /-- `flush_row_group` -/
 def flushRowGroup (D : Deps) (w : W) : W × Status :=
   match w.rg with
@@ -301,7 +315,7 @@ def flushRowGroup (D : Deps) (w : W) : W × Status :=
     | none => (w, .other)
     | some (bytes, metas) =>
       ({ w with out := if bytes.length > 0 then w.out ++ [bytes] else w.out,
-                rowGroups := w.rowGroups ++ [{ numRows := w.rgRows, totalByteSize := bytes.length,
+                rowGroups := w.rowGroups ++ [{ numRows := w.rgRows, totalByteSize := chunksUncompressed metas,
                                                fileOffset := w.fileOffset, totalCompressed := bytes.length,
                                                ordinal := w.rowGroups.length, chunks := metas }],
                 fileOffset := w.fileOffset + bytes.length,
